@@ -72,6 +72,7 @@ structure IfaceMethod where
 
 inductive Decl where
   | type (name : Bytes) (ty : GoTy)
+  | alias (name : Bytes) (ty : GoTy)           -- type name = ty
   | iface (name : Bytes) (methods : List IfaceMethod)
   | func (f : Func)
   deriving Inhabited
